@@ -54,8 +54,10 @@ WorldsSeq(W) == [j \in 1..Len(W) |-> WorldJson(W[j])]
 CaseOf(t, q) ==
   [id |-> q, ctx |-> "tap", ik |-> IK, leaves |-> t.leaves, dl |-> t.dl,
    worlds |-> CHOOSE r \in {WorldsSeq(W) : W \in {SetToSeq(WorldsOfCtx(Union(t), "tap"))}} : TRUE]
-CasesOf(S) == [q \in 1..Len(S) |-> CaseOf(S[q], q)]
-ASSUME TLCSet(12, CHOOSE r \in {CasesOf(S) : S \in {SetToSeq(Trees)}} : TRUE)
+\* key-only outputs of the other types: pkh, wpkh, sh(wpkh) over the same key
+KeyDescs == {[kind |-> k, leaves |-> <<>>, dl |-> <<>>] : k \in {"pkh", "wpkh", "shwpkh"}}
+CasesOf(S) == [q \in 1..Len(S) |-> CaseOf(S[q], q) @@ [kind |-> IF "kind" \in DOMAIN S[q] THEN S[q].kind ELSE "tr"]]
+ASSUME TLCSet(12, CHOOSE r \in {CasesOf(S) : S \in {SetToSeq(Trees) \o SetToSeq(KeyDescs)}} : TRUE)
 CaseSeq == TLCGet(12)
 
 ASSUME ndJsonSerialize(IOEnv.OUT, CaseSeq)
